@@ -2,7 +2,7 @@
     (Float/Model.v mul sqr cubic, Float/AddModel.v add sub sqrt, Float/DivMulModel.v div inv) followed by Repr::new on the
     pair it returns.  DEFINITIONS (proofs: FloatOrdProducers2.v); the oracle replays [fprod_asis] on every `fprod` case and
     compares significand, exponent and flag with what Context::<R>::new(p).op(..) returned. *)
-From Dashu Require Import Base.Prelude Float.RoundSpec Float.Contract Float.Model Float.AddModel Float.DivMulModel.
+From Dashu Require Import Base.Prelude Float.RoundSpec Float.Contract Float.Model Float.AddModel Float.DivMulModel Float.LongModel Float.FixModel.
 From DashuGen Require Import RoundTables.
 Open Scope Z_scope.
 
@@ -16,30 +16,25 @@ Definition fin_new (B : Z) (a : approx) : Z * Z * option rounding :=
 Definition rfin (B : Z) (x : result approx) : result (Z * Z * option rounding) :=
   match x with Ok a => Ok (fin_new B a) | Panic c => Panic c | Err c => Err c | OutOfFuel => OutOfFuel end.
 
-(** Context::div as the code runs it: the over-long dividend is shortened with repr_round_ref, whose Inexact arm builds
-    its value with Repr::new - so the dividend handed to repr_div is NORMALISED (C03's DivMulModel.ctx_div keeps the
-    unnormalised pair: the same value, but repr_div then sees more digits and can return precision + 1 digits where the
-    code returns precision; observed by the `fprod` run, e.g. base 2, Down, precision 26,
-    -0xdc5ee868f6525eb67c370eb5891c6dcb * 2^100 / -0x2c62546f5028d7 * 2^-5) *)
-Definition ctx_div_n (B : Z) (du dl : Z -> Z) (p : Z) (m : mode) (s1 e1 s2 e2 : Z) : result approx :=
-  let '(s1', e1') :=
-    if negb (s1 =? 0) && (du s1 >? dl s2 + p)
-    then match repr_round B (dlen B s2 + p) m s1 e1 with
-         | AExact s e => (s, e)
-         | AInexact s e _ => Model.normalize B s e
-         end
-    else (s1, e1) in
-  repr_div B p m s1' e1' s2 e2.
+(** Round 3 carried a private model ctx_div_n of Context::div (the over-long dividend shortened with repr_round_ref AND
+    normalised before repr_div; C03's DivMulModel.ctx_div kept the unnormalised pair and deviated from the code).
+    Round 4: the private copy is dropped.  deep-C03 first added the `_n` models with every Repr::new of the code
+    (Float/LongModel.v; LongModel.ctx_div_n is the function of round 3); since then add.rs, mul.rs and div.rs were REPAIRED
+    in /repo (b8f1245, 675af08, da565f6: over-long operands are no longer rounded twice; Context::div does not shrink the
+    dividend any more, repr_div scales the divisor instead) and deep-C03 models the repaired code in Float/FixModel.v
+    (`_fix_n`: with every Repr::new; C03's oracle compares them with the implementation digit for digit).  The replayed
+    producer below runs exactly those models; Context::sqrt is LongModel.ctx_sqrt_n (root.rs unchanged).  [dl] is kept
+    in the signature for the driver, the repaired Context::div reads no lower digit estimate. *)
 
 (** [du], [dl]: Repr::digits_ub / digits_lb as the run reported them *)
 Definition fprod_asis (B : Z) (du dl : Z -> Z) (o : fop) (p : Z) (m : mode) (s1 e1 s2 e2 : Z) : result (Z * Z * option rounding) :=
   match o with
-  | FoAdd => Ok (fin_new B (ctx_add B du p m s1 e1 s2 e2))
-  | FoSub => Ok (fin_new B (ctx_sub B du p m s1 e1 s2 e2))
-  | FoMul => Ok (fin_new B (ctx_mul B p m s1 e1 s2 e2))
-  | FoSqr => Ok (fin_new B (ctx_sqr B p m s1 e1))
-  | FoCubic => Ok (fin_new B (ctx_cubic B p m s1 e1))
-  | FoDiv => rfin B (ctx_div_n B du dl p m s1 e1 s2 e2)
-  | FoInv => rfin B (ctx_inv B p m s1 e1)
-  | FoSqrt => rfin B (ctx_sqrt B p m s1 e1)
+  | FoAdd => rfin B (ctx_add_fix_n B du p m s1 e1 s2 e2)
+  | FoSub => rfin B (ctx_sub_fix_n B du p m s1 e1 s2 e2)
+  | FoMul => Ok (fin_new B (ctx_mul_fix_n B p m s1 e1 s2 e2))
+  | FoSqr => Ok (fin_new B (ctx_sqr_fix_n B p m s1 e1))
+  | FoCubic => Ok (fin_new B (ctx_cubic_fix_n B p m s1 e1))
+  | FoDiv => rfin B (repr_div_fix_n B p m s1 e1 s2 e2)
+  | FoInv => rfin B (ctx_inv_fix_n B p m s1 e1)
+  | FoSqrt => rfin B (ctx_sqrt_n B p m s1 e1)
   end.
